@@ -96,3 +96,76 @@ func zzEvalWhole(shape, maxLost int) {
 		zz.Reach("lost task resubmitted")
 	}
 }
+
+// zzLateLossExec is zzRunExec plus "later loss of an already completed task":
+// when a task is handed over, one task that had completed OK earlier may (by a
+// solver-chosen flag, once) be marked LOST first - as when the machine holding
+// its output dies while other work is still outstanding.
+type zzLateLossExec struct {
+	zzRunExec
+	lateLosses int
+}
+
+func (e *zzLateLossExec) Run(t *Task) {
+	zz.Assert(!e.running[t], "no task is handed to the executor twice at the same time")
+	e.running[t] = true
+	e.runs[t]++
+	for _, d := range t.Deps {
+		for i := 0; i < d.NumTask(); i++ {
+			zz.Assert(d.Task(i).State() == TaskOk, "a task is handed to the executor only when all its dependencies are OK")
+		}
+	}
+	zz.Assert(t.State() == TaskWaiting, "tasks are handed over in state WAITING")
+	t.Set(TaskRunning)
+	// while t is running (so before Eval can learn that t completed), a task
+	// that had completed earlier is lost
+	if e.lateLosses == 0 {
+		// (only roots: nothing depends on them, so no task that was handed
+		// over while they were OK can find them lost when it starts)
+		for _, u := range e.g.roots {
+			if u != t && u.State() == TaskOk && zz.AnyBool("loseCompletedTask") {
+				e.lateLosses++
+				zz.Reach("a completed task was lost while other work was outstanding")
+				u.Set(TaskLost)
+				break
+			}
+		}
+	}
+	e.running[t] = false
+	t.Set(TaskOk)
+}
+
+// zzH_C03_evalWhole_lateLoss: the whole Eval over two roots (independent, or
+// sharing a dependency) where a task that already completed may be lost while
+// another is being handed out: Eval still reports success only with every root
+// OK (it must notice and recompute the lost root).
+func zzH_C03_evalWhole_lateLoss_independent() { zzEvalWholeLate(8) }
+func zzH_C03_evalWhole_lateLoss_shared()      { zzEvalWholeLate(2) }
+
+// a root that completed is seen OK by a later scheduling round (another root's
+// dependency completed) and is lost only after that
+func zzH_C03_evalWhole_lateLoss_afterRound() { zzEvalWholeLate(9) }
+
+func zzEvalWholeLate(shape int) {
+	g := zzShape(shape)
+	ex := &zzLateLossExec{zzRunExec: zzRunExec{g: g, running: map[*Task]bool{}, runs: map[*Task]int{}, maxLost: 0}}
+	err := Eval(context.Background(), ex, g.roots, nil)
+	anyErr := false
+	for _, t := range g.tasks {
+		if t.state == TaskErr {
+			anyErr = true
+		}
+	}
+	if err == nil {
+		zz.Reach("eval succeeded")
+		for _, r := range g.roots {
+			for _, t := range r.Phase() {
+				zz.Assert(t.state == TaskOk, "Eval reports success only when every root is OK (a root lost after completing is recomputed)")
+			}
+		}
+		zz.Assert(!anyErr, "Eval does not report success when a task failed fatally")
+	} else {
+		zz.Reach("eval failed")
+		zz.Assert(anyErr, "Eval reports an error only when a task failed fatally")
+	}
+}
